@@ -1,4 +1,104 @@
-BOUNDS = {}
-ASSUMPTIONS = []
-STUBS = []
-def instances(tier): return []
+"""C15 (ndset): verdict and message do not depend on the iteration order of any pytestarch set (models the hash
+seed).  Each instance runs in a dedicated interpreter (vf/engine/ndset_worker.py) because the AST-rewriting import
+hook must be installed before pytestarch is loaded.  A reported dependence is replayed with real PYTHONHASHSEED
+values in fresh interpreters and only reported as a violation if two seeds really differ."""
+
+from __future__ import annotations
+
+import json
+import os
+import subprocess
+import sys
+
+BOUNDS = {
+    "sets": "every set(...) / set display / set comprehension in pytestarch.* iterates in a symbolic permutation when it holds 2-3 elements (larger sets: insertion order, outside the bound)",
+    "universes": "4-module tree p, p.a, p.b, p.c (2 subjects x 1 object, 1 x 2); 3-module tree (sub-module subjects); four root modules a, b, c, d for 2 subjects x 2 objects (thorough)",
+}
+ASSUMPTIONS = [
+    "ndset: over-approximates hash-seed dependent order; sets inside networkx / the standard library are not rewritten; ERROR outcomes are compared by exception type",
+]
+STUBS = ["NDSet (AST-rewriting import hook, dedicated interpreter)"]
+VERIF = os.path.dirname(os.path.dirname(os.path.dirname(os.path.abspath(__file__))))
+CAPS = {"quick": 1 << 16, "thorough": 1 << 19}
+N4 = ["p", "p.a", "p.b", "p.c"]
+N3 = ["p", "p.a", "p.b"]
+N5 = ["a", "b", "c", "d"]  # four roots: 2 subjects x 2 objects without a shared parent
+
+
+def instances(tier: str) -> list[dict]:
+    from vf.oracles.layers import LayerSpec
+    from vf.universes import SHAPES, RuleSpec
+
+    out = []
+
+    def add(nodes, desc, label):
+        out.append({"part": "ndset", "nodes": nodes, "rule": list(desc), "label": "ndset " + label, "cap": CAPS[tier]})
+
+    shapes = SHAPES if tier == "thorough" else SHAPES[::2] + SHAPES[1::6]
+    for verb, direction, exc in shapes:
+        s = RuleSpec(verb, direction, exc, "named", ("p.a", "p.b"), "named", ("p.c",))
+        add(N4, ("rule", s.as_json()), s.label())
+        s = RuleSpec(verb, direction, exc, "named", ("p.a",), "named", ("p.b", "p.c"))
+        add(N4, ("rule", s.as_json()), s.label())
+    for verb, direction, exc in (SHAPES if tier == "thorough" else SHAPES[::3]):
+        if tier == "thorough":
+            s = RuleSpec(verb, direction, exc, "named", ("a", "b"), "named", ("c", "d"))
+            add(N5, ("rule", s.as_json()), s.label())
+        s = RuleSpec(verb, direction, exc, "sub", ("p",), "named", ("p",))
+        add(N3, ("rule", s.as_json()), s.label())
+    for d in ("import", "imported"):
+        s = RuleSpec("should_not", d, False, "named", ("p.a", "p.b"), "named", (), True)
+        add(N4, ("rule", s.as_json()), s.label())
+    s = RuleSpec("should_only", "import", False, "regex", (r"p\.(a|b)",), "named", ("p.c",))
+    add(N4, ("rule", s.as_json()), s.label())
+    layers = (("L0", "names", ("p.a", "p.b")), ("L1", "names", ("p.c",)))
+    for verb, direction, exc in (SHAPES if tier == "thorough" else SHAPES[::4]):
+        ls = LayerSpec(layers, verb, "access" if direction == "import" else "accessed", exc, "L0", ("L1",))
+        add(N4, ("layer", ls.as_json()), ls.label())
+    if tier == "thorough":
+        add(N4, ("diagram", True), "DiagramRule should_only")
+    return out
+
+
+def work(inst: dict) -> dict:
+    env = dict(os.environ)
+    p = subprocess.run([sys.executable, "-m", "vf.engine.ndset_worker", json.dumps(inst)], capture_output=True, text=True, cwd=VERIF, env=env, timeout=3600)
+    line = p.stdout.strip().splitlines()[-1] if p.stdout.strip() else ""
+    try:
+        res = json.loads(line)
+    except Exception:  # noqa: BLE001
+        return {"label": inst["label"], "errors": [f"ndset worker failed: rc={p.returncode} {p.stderr[-600:]}"]}
+    res["functions"] = set(res.get("functions", []))
+    dep = res.pop("dependence", None)
+    if dep:
+        payload = {"kind": "ndset", "nodes": inst["nodes"], "rule": inst["rule"], "edges": [list(e) for e in dep["edges"]], "modelled": dep}
+        ok, text, detail = replay_detail(payload)
+        res["replays"] = res.get("replays", 0) + 1
+        if ok:
+            res["errors"].append(f"{inst['label']}: the outcome depends on a modelled set order ({dep}) but 32 real hash seeds agree: inconclusive (over-approximation)")
+        else:
+            payload.update({"text": text, "observed": detail, "signature": {"rule": inst["rule"]}})
+            res.setdefault("violations", []).append(payload)
+    return res
+
+
+_SEED_SCRIPT = r"""
+import json, sys
+sys.path.insert(0, %(verif)r)
+from vf.props import c15
+from vf.engine.stubs_graph import real_architecture
+p = json.loads(sys.argv[1])
+o = c15.evaluate_raw(c15.make_rule(tuple(p["rule"])), real_architecture(p["nodes"], [tuple(e) for e in p["edges"]]))
+print(json.dumps(list(o)))
+"""
+
+
+def replay_detail(payload: dict):
+    outs = {}
+    for seed in range(32):
+        env = dict(os.environ)
+        env["PYTHONHASHSEED"] = str(seed)
+        p = subprocess.run([sys.executable, "-c", _SEED_SCRIPT % {"verif": VERIF}, json.dumps({k: payload[k] for k in ("rule", "nodes", "edges")})], capture_output=True, text=True, cwd=VERIF, env=env, timeout=300)
+        outs.setdefault(p.stdout.strip() or f"rc={p.returncode} {p.stderr[-200:]}", []).append(seed)
+    ok = len(outs) == 1
+    return ok, f"rule {payload['rule']} on modules {payload['nodes']} with imports {payload['edges']} under PYTHONHASHSEED 0..31: " + ("one outcome" if ok else f"{len(outs)} different outcomes: " + "; ".join(f"seeds {v[:4]} -> {k[:200]}" for k, v in outs.items())), {"by_seed": {k[:300]: v for k, v in outs.items()}}
